@@ -337,7 +337,7 @@ fn gen_case(rng: &mut Rng, i: usize) -> (HCfg, Vec<HOp>, BTreeMap<u64, Loc>) {
 
 pub fn run(seed: u64, tier: &str, shard: usize, nshards: usize) -> ShardResult {
     let mut res = ShardResult::new("c12", seed);
-    let rt = tokio::runtime::Builder::new_multi_thread().worker_threads(3).enable_all().build().unwrap();
+    let mut rt = tokio::runtime::Builder::new_multi_thread().worker_threads(3).enable_all().build().unwrap();
     let total = if tier == "thorough" { 32_000 } else { 4_000 };
     let mut rng = Rng::derive(seed, 0xC12_000 + shard as u64);
     // probation family (long): a few per shard
@@ -366,6 +366,10 @@ pub fn run(seed: u64, tier: &str, shard: usize, nshards: usize) -> ShardResult {
         }
     }
     for i in 0..total / nshards.max(1) {
+        // a closed HybridCache keeps its partition files open for as long as its runtime lives: recycle the runtime regularly
+        if i % 25 == 24 {
+            std::mem::replace(&mut rt, tokio::runtime::Builder::new_multi_thread().worker_threads(3).enable_all().build().unwrap()).shutdown_background();
+        }
         let (cfg, script, locs) = gen_case(&mut rng, i);
         let r = rt.block_on(async { tokio::time::timeout(std::time::Duration::from_secs(300), run_script(&cfg, &script, &locs)).await });
         res.evaluations += 1;
